@@ -126,6 +126,77 @@ def gen_value(rng, t, maxlen=4, special=True):
     raise ValueError(t)
 
 
+def _list_nodes(t, out):
+    k = t[0]
+    if k == 'list':
+        out.append(t)
+        _list_nodes(t[1], out)
+    elif k == 'opt':
+        _list_nodes(t[1], out)
+    elif k == 'rec':
+        for _, ft in t[1]:
+            _list_nodes(ft, out)
+    elif k == 'union':
+        for a in t[1]:
+            _list_nodes(a, out)
+
+
+def _lens_at(t, v, node, out):
+    if v is None:
+        return
+    k = t[0]
+    if k == 'list':
+        if t is node:
+            out.append(len(v))
+        else:
+            for x in v:
+                _lens_at(t[1], x, node, out)
+    elif k == 'opt':
+        _lens_at(t[1], v, node, out)
+    elif k == 'rec':
+        for (_, ft), x in zip(t[1], v[1]):
+            _lens_at(ft, x, node, out)
+    elif k == 'union':
+        _lens_at(t[1][v[1]], v[2], node, out)
+
+
+def _cut_at(t, v, node, n):
+    if v is None:
+        return v
+    k = t[0]
+    if k == 'list':
+        if t is node:
+            return v[:n]
+        return [_cut_at(t[1], x, node, n) for x in v]
+    if k == 'opt':
+        return _cut_at(t[1], v, node, n)
+    if k == 'rec':
+        return ('$rec', [_cut_at(ft, x, node, n) for (_, ft), x in zip(t[1], v[1])])
+    if k == 'union':
+        return ('$un', v[1], _cut_at(t[1][v[1]], v[2], node, n))
+    return v
+
+
+def rectangularise(rng, t, vals, p=0.22):
+    """with probability p per list level of the type: cut every list found at that level to one common length (the
+    shortest one, or shorter; quite often 0), so that regular encodings - including size 0 with several rows - of
+    nested data with records / options below them are generated with real content"""
+    ns = []
+    _list_nodes(t, ns)
+    for node in ns:
+        if rng.random() >= p:
+            continue
+        lens = []
+        for v in vals:
+            _lens_at(t, v, node, lens)
+        if len(lens) < 2:
+            continue
+        m = min(lens)
+        n = m if rng.random() < 0.7 else rng.randint(0, m)
+        vals = [_cut_at(t, v, node, n) for v in vals]
+    return vals
+
+
 # ------------------------------------------------------------------ encodings
 class Enc:
     """encoding options; canonical=True gives the compact canonical encoding"""
@@ -437,7 +508,7 @@ def gen_array(rng, depth=3, toplen=None, canonical_too=True, enc_kw=None, type_k
     """returns dict(type, vals, layout, canon)"""
     t = gen_type(rng, depth, **(type_kw or {}))
     n = toplen if toplen is not None else rng.choice([0, 1, 2, 3, 3, 4, 5])
-    vals = [gen_value(rng, t, 4, special) for _ in range(n)]
+    vals = rectangularise(rng, t, [gen_value(rng, t, 4, special) for _ in range(n)])
     enc = Enc(rng, **dict(dict(special=special), **(enc_kw or {})))
     lay = encode(enc, t, vals)
     out = dict(type=t, vals=vals, layout=lay, stats=enc.stats)
